@@ -196,6 +196,7 @@ type Exec struct {
 	work     []*State
 
 	curResults []resTerm // handles on the values being returned (set while postconditions are checked)
+	uptoHit       bool
 	orphanSpecs   []orphanSpec
 	remap         *loopRemap
 	remapDone     bool
@@ -615,6 +616,11 @@ func (ex *Exec) Run() (err error) {
 		}
 		ex.runPath()
 	}
+	if ex.contract != nil {
+		if snip, ok := ex.contract.Options["upto"]; ok && !ex.uptoHit {
+			return fmt.Errorf("the statement %s named by `option upto` was not found in %s", snip, relName(ex.root))
+		}
+	}
 	for _, o := range ex.orphanSpecs {
 		if !o.placed {
 			return fmt.Errorf("loop %d of the contract (head %q when the contracts were locked) can no longer be located in %s or in a helper it calls: its clauses would be lost", o.ordinal, o.header, relName(ex.root))
@@ -635,6 +641,18 @@ func (ex *Exec) runPath() {
 		ex.curIns = ins
 		if fr.fn == ex.root && ex.contract != nil && len(ex.contract.AssumeAt) > 0 && ins.Pos().IsValid() {
 			ex.assumeAtHook(fr, ins)
+		}
+		if fr.fn == ex.root && ex.contract != nil && ins.Pos().IsValid() {
+			if snip, ok := ex.contract.Options["upto"]; ok && snip != "" {
+				// `option upto "<source snippet>"`: the function is under contract up to (not including) that statement; what
+				// follows is outside the contract (explicitly partial: no postcondition is checked on these paths)
+				if strings.Contains(sourceLine(ex.prog, ins.Pos()), strings.Trim(snip, "\"")) {
+					ex.note("stated in the contract of " + relName(ex.root) + ": verified only up to the statement `" + strings.Trim(snip, "\"") + "`; the rest of the function is not under contract")
+					ex.uptoHit = true
+					ex.st.done = true
+					return
+				}
+			}
 		}
 		ex.step(fr, ins)
 	}
